@@ -54,7 +54,7 @@ THEOREMS = ['C13_callback_repr', 'C13_callback_repr_state', 'C13_callback_repr_m
             'C13_h_embedded_machine', 'C13_h_embedded_machine_script', 'C13_h_dict_round_trip',
             'C13_h_embedded_remap', 'C13_h_embedded_remap_script', 'C13_h_never_mentioned',
             'C13_h_remove_never_added', 'C13_h_remove_never_added_scratch', 'C13_h_unique_event_names',
-            'C13_h_remove_scope_refuted']
+            'C13_h_remove_filter', 'C13_h_remove_filter_inverse', 'C13_h_remove_scope_example']
 THEOREM_OF_DIFF = 'corr_C13: Build.exec = what /repo builds (Props/C13.v laws are about Build.exec)'
 
 SLOTS5 = ['conditions', 'unless', 'before', 'after', 'prepare']
@@ -1367,6 +1367,31 @@ def extra_checks(tier, seed):
         okh, dist, badh = False, {}, dict(kind='correspondence', correspondence='corr_C13_hbuild',
                                           error=traceback.format_exc()[-2000:])
     res.append(('hsm_builder_model_vs_library', okh, dist, badh))
+    # states / transitions / initial given by (nested) Enum members, the member names reused on every level,
+    # vs the same machine given by names: same traces, results and configurations on a random history
+    import hsm
+    n_en = 300 if tier == 'quick' else 5000
+    bad_en, executed_en = None, 0
+    for i in range(n_en):
+        rng = random.Random('C13-x-enum-%d-%d' % (seed, i))
+        try:
+            hc = hsm.gen_case(rng, hist_len=rng.randint(2, 8), max_events=3)
+            by_name = hsm.impl_hsm(dict(hc))
+            by_enum = hsm.impl_hsm(dict(hc, enum=1))
+        except Exception:  # noqa
+            import traceback
+            bad_en = dict(kind='correspondence', correspondence='hsm_enum_vs_names', description='builder raised',
+                          error=traceback.format_exc()[-1500:], index=i)
+            break
+        executed_en += sum(1 for c in by_name[2] if c[1] == [0, True])
+        if by_name != by_enum:
+            bad_en = dict(kind='counterexample', correspondence='hsm_enum_vs_names', description=hc,
+                          observations=[by_name, by_enum], index=i,
+                          failing_clause='the machine given by nested Enum members differs from the one given by names')
+            break
+    res.append(('hsm_enum_vs_names', bad_en is None,
+                dict(instances=n_en, executed_transitions=executed_en,
+                     level='implementation-vs-implementation (Enum states are not in the Coq builder)'), bad_en or {}))
     for name, fn in (('hsm_nested_dict_vs_joined_names', _nested_pair), ('hsm_embedded_machine_remap', _remap_pair)):
         bad = None
         executed = 0
